@@ -212,6 +212,62 @@ def spec_reach(edges, start):
     return seen
 
 
+def skel_other(b):
+    """does a skeleton body contain an operator outside the documented fragment?"""
+    if isinstance(b, str) or "r" in b:
+        return False
+    if "o" in b:
+        return True
+    return any(skel_other(x) for x in b.get("s", b.get("c", [])))
+
+
+def abstract_nodes_documented(t, obs):
+    """every abstract rule's node of the parse tree belongs to a rule whose resolved body is documented"""
+    if "t" in t:
+        return True
+    if "n" in t and obs["kinds"].get(t["n"]) == "abstract":
+        i = obs["names"].index(t["n"])
+        if skel_other(obs["skeleton"][i]["body"]):
+            return False
+    return all(abstract_nodes_documented(c, obs) for c in t["k"])
+
+
+def tree_derives(t, obs):
+    """independent reading of `Derives` / `WfTree`: the children of every abstract rule's node are those of one
+    alternative of the rule's resolved body (match -> a terminal, reference -> that rule's node, or a terminal for a
+    match rule; sequence, ordered choice; other operators derive nothing)"""
+    if "t" in t:
+        return True
+    names = obs["names"]
+    if "n" in t and obs["kinds"].get(t["n"]) == "abstract":
+        kids = t["k"]
+
+        def m(b, i):
+            if b == "l":
+                return {i + 1} if i < len(kids) and "t" in kids[i] else set()
+            if "r" in b:
+                if i >= len(kids):
+                    return set()
+                c = kids[i]
+                if "n" in c:
+                    return {i + 1} if c["n"] == names[b["r"]] else set()
+                if "t" in c:
+                    return {i + 1} if obs["kinds"].get(names[b["r"]]) == "match" else set()
+                return set()
+            if "s" in b:
+                cur = {i}
+                for x in b["s"]:
+                    cur = {j for p in cur for j in m(x, p)}
+                return cur
+            if "c" in b:
+                return {j for x in b["c"] for j in m(x, i)}
+            return set()
+
+        if len(kids) not in m(obs["skeleton"][names.index(t["n"])]["body"], 0):
+            return False
+    return all(tree_derives(c, obs) for c in t["k"])
+
+
 def flat(t):
     """the matched text below a node"""
     if "t" in t:
@@ -921,6 +977,17 @@ class Prop(Check):
         "RuleTypes.C03_result_first_nonmatch",
         "RuleTypes.C03_result_concat_terminals",
         "RuleTypes.C03_result_single_child",
+        "RuleTypes.C03_derives_iff",
+        "RuleTypes.C03_tree_iff",
+        "RuleTypes.C03_children_alternative",
+        "RuleTypes.C03_children_firstNM",
+        "RuleTypes.C03_result_alternative",
+        "RuleTypes.C03_result_spec",
+        "RuleTypes.C03_result_instance",
+        "RuleTypes.C03_result_instance_other_false",
+        "RuleTypes.C03_inh_lower",
+        "RuleTypes.C03_inh_upper",
+        "RuleTypes.C03_isinstance_bounds",
         "RuleTypes.C03_result_all_match_partial",
         "RuleTypes.C03_result_all_match_full_false",
         "RuleTypes.C03_pinned_overapprox_false",
@@ -1179,6 +1246,19 @@ class Prop(Check):
             return {"o": names[v["o"]], "a": [[a, [names_of(x) for x in vs]] for a, vs in v["a"]]}
 
         oks = [r for r in obs["texts"] if r.get("outcome") == "ok"]
+        if len(out.get("wf", [])) != len(oks) or len(out["vals"]) != len(oks):
+            return "model answer: one value and one tree verdict per accepted text expected"
+        for r, wf in zip(oks, out["wf"]):
+            # Arpeggio's tree against the grammar: the children of every abstract rule's node are those of one
+            # alternative of the rule's body (`Derives`, the hypothesis of C03_result_instance / _alternative);
+            # bodies with ? * + # or predicates are outside the relation
+            want = tree_derives(r["tree"], obs)
+            if wf != want:
+                return (f"text {r['text']!r}: parse tree {'derives' if wf else 'does not derive'} from the rule bodies "
+                        f"in the model, expected {want}")
+            if not wf and abstract_nodes_documented(r["tree"], obs):
+                return (f"text {r['text']!r}: the children of an abstract rule's node are not those of an alternative "
+                        f"of its (documented) body")
         for r, mv in zip(oks, out["vals"]):
             mv = names_of(mv)
             d = val_diff(mv, r["val"])
@@ -1226,6 +1306,15 @@ class Prop(Check):
             d = val_diff(want, r["val"])
             if d:
                 return f"text {r['text']!r}: documented result differs: {d}"
+            # the value of the root rule's node, when an object, belongs to a rule reachable from the root rule
+            if "o" in r["val"]:
+                root = user[0]
+                reach = spec_reach(edges, root)
+                if reach is not None and r["val"]["o"] not in reach:
+                    return (f"text {r['text']!r}: the model is a {r['val']['o']} object, a rule not reachable from "
+                            f"the root rule {root} through abstract-rule alternatives")
+                if reach is not None and r["objs"] and r["objs"][0][1].get(root) is not True:
+                    return f"text {r['text']!r}: the model is not a textx_isinstance of the root rule {root}"
             # isinstance
             for cls, m in r["objs"]:
                 for cn, b in m.items():
@@ -1301,7 +1390,9 @@ class Prop(Check):
         d = {"loaded": 0, "rejected_grammars": 0, "texts": 0, "accepted": 0, "objects": 0, "isinstance_pairs": 0,
              "with_abstract_cycle": 0, "with_undocumented_ops": 0, "abstract_nodes_multi_child": 0, "kinds": {},
              "rules": 0, "changing_passes": {}, "nested_only_change_pass": 0, "false_valued_abstract_results": 0,
-             "false_valued_after_match_nonterminal": 0, "false_valued_attribute_values": 0, "base_type_terminals": {}}
+             "false_valued_after_match_nonterminal": 0, "false_valued_attribute_values": 0, "base_type_terminals": {},
+             "trees_with_abstract_node_derived": 0, "trees_not_derived_undocumented_body": 0,
+             "object_results_of_abstract_root": 0}
         for c, o in zip(cases, obs):
             if not isinstance(o, dict) or o.get("load") != "ok":
                 d["rejected_grammars"] += 1
@@ -1329,6 +1420,13 @@ class Prop(Check):
                     d["objects"] += len(r["objs"])
                     d["isinstance_pairs"] += sum(len(m) for _, m in r["objs"])
                     d["abstract_nodes_multi_child"] += self.count_multi(r["tree"], kinds)
+                    if has_abstract_node(r["tree"], kinds):
+                        if tree_derives(r["tree"], o):
+                            d["trees_with_abstract_node_derived"] += 1
+                        else:
+                            d["trees_not_derived_undocumented_body"] += 1
+                    if "o" in r["val"] and o["kinds"].get(r["tree"].get("n")) == "abstract":
+                        d["object_results_of_abstract_root"] += 1
                     self.count_false(r["tree"], kinds, d)
         return {"distribution": d}
 
